@@ -57,7 +57,8 @@ def inject(rng, t, toks):
         bounds = [0] + [e for _, _, e in toks]
         p = rng.choice(bounds)
         c = rng.choice([b"/* c */", b"/**/", b"// x\n", b"/* a * b */", b"//\n"])
-        return kind, t[:p] + c + t[p:], True
+        # after the last token a comment is "trailing bytes": a different rule applies with allow-trailing
+        return ("comment_end" if p == bounds[-1] else kind), t[:p] + c + t[p:], True
     if kind in ("squote", "squote_key"):
         # keys are the strings followed by ':'
         strs = []
@@ -141,10 +142,18 @@ def gen(rng, tier):
             if b"\x00" in t2:
                 continue
             endpos = len(t.rstrip(b" \t\r\n"))
-            for fl in (0, STRICT, STRICT | TRAILING):
-                if fl == (STRICT | TRAILING) and kind != "trailing":
+            # strict must reject whatever other flags accompany it (allow-trailing only lifts the
+            # trailing-bytes rule; UTF-8 validation is orthogonal); default accepts with any of them
+            for fl in (0, STRICT, STRICT | TRAILING, STRICT | UTF8, TRAILING, STRICT | TRAILING | UTF8):
+                if fl in (STRICT | UTF8, TRAILING, STRICT | TRAILING | UTF8) and rng.random() < 0.6:
                     continue
-                meta = {"kind": kind + ("-strict" if fl == STRICT else "-default" if fl == 0 else "-strict+trailing"), "ext": kind,
+                if (fl & UTF8) and any(b >= 0x80 for b in t2):
+                    try:
+                        t2.decode("utf-8")
+                    except UnicodeDecodeError:
+                        continue
+                meta = {"kind": kind + {0: "-default", STRICT: "-strict", STRICT | TRAILING: "-strict+trailing", STRICT | UTF8: "-strict+utf8",
+                                        TRAILING: "-default+trailing", STRICT | TRAILING | UTF8: "-strict+trailing+utf8"}[fl], "ext": kind,
                         "text": t2, "flags": fl, "neutral": neutral, "orig": want, "origlen": len(t), "endpos": endpos}
                 out.append((line(32, fl, ["Z" + hx(t2)]), meta))
     return out
@@ -160,11 +169,13 @@ def oracle(line_, meta, impl):
         return ("malformed", impl[:100])
     err, off, val = st
     ext, fl = meta["ext"], meta["flags"]
-    if fl == STRICT:
+    if (fl & STRICT) and (fl & TRAILING) and ext == "comment_end":
+        return None if err == "success" and val == meta["orig"] else ("trailing-flag-rejects", "strict+allow_trailing rejected a comment after the value: %s" % err)
+    if (fl & STRICT) and not ((fl & TRAILING) and ext == "trailing"):
         if err == "success":
             return ("strict-accepts-" + ext, "strict mode accepted %r (%s)" % (meta["text"][:80], ext))
         return None
-    if fl == 0:
+    if not (fl & STRICT):
         if err != "success":
             return ("default-rejects-" + ext, "default mode rejected %r (%s): %s" % (meta["text"][:80], ext, err))
         if meta["neutral"] and meta["orig"] is not None and val != meta["orig"]:
@@ -188,7 +199,7 @@ def classify(line_, meta, mo, co):
 
 
 def nontrivial(line_, meta, impl):
-    if meta["flags"] == 0 and impl.startswith("success"):
+    if not (meta["flags"] & STRICT) and impl.startswith("success"):
         return (meta["text"], 0)
     if meta["flags"] != 0:
         return (meta["text"], meta["flags"])
